@@ -155,7 +155,9 @@ def check_expr(h, res, tag, text):
             res.add("fstring-concat-pieces-normalised-by-unparse", {"source": text[:120], "rendered": rep["t1"][:160]}, wit)
             return
         d = pyref.Diff(b"", check_ranges=False)
-        d.go(erase(e2), erase(e1))
+        # compared with adjacent literal pieces merged on both sides (the piece normalisation is a known class of its own and
+        # may coincide with another deviation in the same expression)
+        d.go(norm_joined(erase(e2)), norm_joined(erase(e1)))
         res.add(classify(text, rep, "tree", d.tree[:1]), {"source": text[:120], "rendered": rep["t1"][:160], "first": [x[:4] for x in d.tree[:1]]}, wit)
         return
     if rep["t1"] != rep["t2"]:
@@ -189,6 +191,16 @@ def norm_joined(n):
     return n
 
 
+def _undouble(x):
+    """The summary text of a constant with every run of backslashes halved until stable (exactly the effect of one or
+    more render/parse rounds that double backslashes)."""
+    prev = None
+    while prev != x:
+        prev = x
+        x = x.replace("\\\\", "\\")
+    return x
+
+
 def classify(text, rep, what, first=None):
     t1 = rep.get("t1", "")
     if what == "reparse" and ("f'" in t1 or 'f"' in t1) and ("\\'" in t1 or '\\"' in t1):
@@ -198,7 +210,7 @@ def classify(text, rep, what, first=None):
         cls, path, a, b = first[0][:4]
         if ("JoinedStr" in path or "FormattedValue" in path) and isinstance(a, str) and isinstance(b, str):
             ua, ub = a.replace("\\\\", "\\"), b
-            if a != b and (a.replace("\\\\", "\\") == b or a.encode().decode("unicode_escape", "replace") == b.encode().decode("unicode_escape", "replace") or True) and "\\" in a:
+            if a != b and _undouble(a) == _undouble(b) and "\\" in a:
                 # escapes in constants inside an f-string (field strings, format specs) come back with doubled backslashes
                 return "fstring-unparse-doubles-backslashes"
     return {"reparse": "unlisted:rendering-rejected", "tree": "unlisted:tree-differs-after-round-trip", "fixpoint": "unlisted:rendering-not-a-fixed-point"}[what]
